@@ -1399,4 +1399,41 @@ theorem steadyNonlinear_certified_any_history (cfg : Config) (tol : Rat) (s : So
     ∀ b ∈ blocks, blockSkipped cfg b = false → BlockHolds cfg tol b v' :=
   block_recursion_any_history cfg _ tol (certify_certified cfg tol s) blocks 0 v v' hrun hord
 
+
+/-! ## 15. Spellings of a plan -/
+
+/-- **`fix` is `fix_level` followed by `fix_change`** in growth mode -- on every plan, in particular on a fresh one in which
+no change has been fixed yet -- and `fix_level` alone in flat mode; likewise `unfix` -/
+theorem fix_eq_fixLevel_fixChange (p : Plan) (q : Nat) :
+    Plan.apply true p (.fix q) = Plan.apply true (Plan.apply true p (.fixLevel q)) (.fixChange q)
+    ∧ Plan.apply false p (.fix q) = Plan.apply false p (.fixLevel q)
+    ∧ Plan.apply true p (.unfix q) = Plan.apply true (Plan.apply true p (.unfixLevel q)) (.unfixChange q) := by
+  simp [Plan.apply]
+
+theorem mem_regOn (l : List Nat) (q r : Nat) : r ∈ regOn l q ↔ r ∈ l ∨ r = q := by
+  unfold regOn
+  split
+  · rename_i h
+    have : q ∈ l := by simpa using h
+    constructor
+    · exact Or.inl
+    · rintro (h | rfl)
+      · exact h
+      · exact this
+  · simp
+
+/-- after `fix q` in growth mode the quantity is in both fixed sets, so (by `resolveWrt_fixed`, `mem_blockLevelQids`,
+`mem_blockChangeQids` and the frame theorems) neither its level nor its change is ever written by the loop -/
+theorem fix_fixes_both (p : Plan) (q : Nat) :
+    q ∈ (Plan.apply true p (.fix q)).fixedLevel ∧ q ∈ (Plan.apply true p (.fix q)).fixedChange := by
+  simp [Plan.apply, mem_regOn]
+
+/-- `swap (x, p)` is `exogenize x` and `endogenize p` -/
+theorem swap_eq (pl : Plan) (g : Bool) (x q : Nat) :
+    Plan.apply g pl (.swap x q) = Plan.apply g (Plan.apply g pl (.exogenize x)) (.endogenize q) := by
+  simp [Plan.apply]
+
+example : (Plan.applyAll true {} [.fix 3]).fixedChange = [3] ∧ (Plan.applyAll false {} [.fix 3]).fixedChange = [] := by
+  decide
+
 end IrisVerif.C05
